@@ -1,3 +1,128 @@
-From BX Require Import Base.Prelude Model.Determinism Proofs.DeterminismProofs.
-Theorem C01_tmp : 1%N = 1%N. Proof. exact placeholder_tmp. Qed.
-Print Assumptions C01_tmp.
+(** C01 — block execution is deterministic across replicas, runs and restarts.
+    Only statements, each closed by [exact]; [Print Assumptions] after each. *)
+From BX Require Import Base.Prelude Model.Determinism Model.DeterminismSites Proofs.DeterminismProofs.
+From BXGen Require Import Gen_MapRanges.
+From Coq Require Import String Permutation.
+Local Open Scope N_scope.
+
+(** Main theorem.  For every configuration in which the seven C01 defect flags are off (whatever
+    the C05 flag [d_dst_key_first] is), every genesis state, every block list, every two oracle
+    families (map iteration orders per site/height/call, goroutine completion orders, clock
+    values) and every two restart placements, the lists of block results are equal: block hash
+    inputs, state root inputs, tx root, receipt root, receipts, Counter, TimeoutCounter,
+    TimeoutL2Roots, MultiTxCounter of every block including genesis. *)
+Theorem C01_exec_oracle_independent : forall cfg, c01_clean cfg ->
+  forall (g : list (N * val)) (bs : list block) (o1 o2 : oracle) (r1 r2 : nat -> bool),
+  oracle_ok o1 -> oracle_ok o2 ->
+  run cfg o1 r1 g bs = run cfg o2 r2 g bs.
+Proof. exact exec_oracle_independent. Qed.
+Print Assumptions C01_exec_oracle_independent.
+
+Theorem C01_exec_oracle_independent_fixed :
+  forall (g : list (N * val)) (bs : list block) (o1 o2 : oracle) (r1 r2 : nat -> bool),
+  oracle_ok o1 -> oracle_ok o2 ->
+  run cfg_fixed o1 r1 g bs = run cfg_fixed o2 r2 g bs.
+Proof. exact exec_oracle_independent_fixed. Qed.
+Print Assumptions C01_exec_oracle_independent_fixed.
+
+(** the hypotheses are satisfiable by an oracle that is not the identity *)
+Theorem C01_rev_oracle_ok : oracle_ok rev_oracle.
+Proof. exact rev_oracle_ok. Qed.
+Print Assumptions C01_rev_oracle_ok.
+
+(** the predicate the judge evaluates on implementation traces is the property *)
+Theorem C01_replicas_agree_b_spec : forall dg, replicas_agree_b dg = true <-> replicas_agree dg.
+Proof. exact replicas_agree_b_spec. Qed.
+Print Assumptions C01_replicas_agree_b_spec.
+
+(** permutation invariance of the consumers *)
+Theorem C01_fold_perm_sorted : forall l l', Permutation l l' -> isort l = isort l'.
+Proof. exact fold_perm_sorted. Qed.
+Print Assumptions C01_fold_perm_sorted.
+Theorem C01_fold_perm_comm : forall (A S : Type) (f : A -> S -> S),
+  (forall a b s, f a (f b s) = f b (f a s)) ->
+  forall l l', Permutation l l' -> forall s, fold_right f s l = fold_right f s l'.
+Proof. exact @fold_perm_comm. Qed.
+Print Assumptions C01_fold_perm_comm.
+Theorem C01_fold_perm_keyed_write : forall (V : Type) (g : N -> V) (l l' : list N) (m : smap V),
+  Permutation l l' -> fold_right (fun k acc => sset k (g k) acc) m l = fold_right (fun k acc => sset k (g k) acc) m l'.
+Proof. intros V g l l' m Hp. apply fold_perm_comm; [intros; apply keyed_write_comm|exact Hp]. Qed.
+Print Assumptions C01_fold_perm_keyed_write.
+Theorem C01_fold_perm_forallb : forall (A : Type) (p : A -> bool) l l', Permutation l l' -> forallb p l = forallb p l'.
+Proof. exact @fold_perm_forallb. Qed.
+Print Assumptions C01_fold_perm_forallb.
+Theorem C01_fold_perm_existsb : forall (A : Type) (p : A -> bool) l l', Permutation l l' -> existsb p l = existsb p l'.
+Proof. exact @fold_perm_existsb. Qed.
+Print Assumptions C01_fold_perm_existsb.
+
+(** tie to the sources: the regenerated inventory and the classified table coincide *)
+Theorem C01_sites_covered : subset_b gen_all_sites pinned_gsites = true.
+Proof. exact sites_covered. Qed.
+Print Assumptions C01_sites_covered.
+Theorem C01_sites_not_stale : subset_b pinned_gsites gen_all_sites = true.
+Proof. exact sites_not_stale. Qed.
+Print Assumptions C01_sites_not_stale.
+Theorem C01_sites_classified :
+  forallb (fun e => existsb (String.eqb (snd (fst (fst e)))) site_classes) pinned_sites = true.
+Proof. exact sites_classified. Qed.
+Print Assumptions C01_sites_classified.
+Theorem C01_model_sites_tied :
+  forallb (fun s => existsb (fun e => (snd (fst e) =? s)%N) pinned_sites) model_sites = true.
+Proof. exact model_sites_tied. Qed.
+Print Assumptions C01_model_sites_tied.
+
+(** refutations: each defect flag alone makes two admissible runs of one history differ *)
+Theorem C01_notify_unsorted_refuted :
+  exists g bs o1 o2, oracle_ok o1 /\ oracle_ok o2 /\ run (only 1) o1 never g bs <> run (only 1) o2 never g bs.
+Proof. exact notify_unsorted_refuted. Qed.
+Print Assumptions C01_notify_unsorted_refuted.
+Theorem C01_timeout_child_order_refuted :
+  exists g bs o1 o2, oracle_ok o1 /\ oracle_ok o2 /\ run (only 2) o1 never g bs <> run (only 2) o2 never g bs.
+Proof. exact timeout_child_order_refuted. Qed.
+Print Assumptions C01_timeout_child_order_refuted.
+Theorem C01_first_error_order_refuted :
+  exists g bs o1 o2, oracle_ok o1 /\ oracle_ok o2 /\ run (only 3) o1 never g bs <> run (only 3) o2 never g bs.
+Proof. exact first_error_order_refuted. Qed.
+Print Assumptions C01_first_error_order_refuted.
+Theorem C01_bns_after_flush_refuted :
+  exists g bs r1 r2, run (only 4) o_id r1 g bs <> run (only 4) o_id r2 g bs.
+Proof. exact bns_after_flush_refuted. Qed.
+Print Assumptions C01_bns_after_flush_refuted.
+Theorem C01_cache_failed_events_refuted :
+  exists g bs r1 r2, run (only 5) o_id r1 g bs <> run (only 5) o_id r2 g bs.
+Proof. exact cache_failed_events_refuted. Qed.
+Print Assumptions C01_cache_failed_events_refuted.
+Theorem C01_singleton_mem_refuted :
+  exists g bs r1 r2, run (only 6) o_id r1 g bs <> run (only 6) o_id r2 g bs.
+Proof. exact singleton_mem_refuted. Qed.
+Print Assumptions C01_singleton_mem_refuted.
+Theorem C01_stale_persister_refuted :
+  exists g bs r1 r2, run (only 7) o_id r1 g bs <> run (only 7) o_id r2 g bs.
+Proof. exact stale_persister_refuted. Qed.
+Print Assumptions C01_stale_persister_refuted.
+
+(** partial: status and SERVICE events of opaque transactions (transfers, governance, XVM/EVM)
+    are inputs of the model; equality of results is proved for equal inputs only.  Also not
+    represented (see design.d/C01.md): data races, scheduler-dependent behaviour inside
+    libraries, Go runtime nondeterminism outside the site inventory. *)
+Theorem C01_opaque_execution_partial :
+  forall (g : list (N * val)) (pre post : list block) (ok touch : bool) (evs : list (N * svcrec))
+         (o1 o2 : oracle) (r1 r2 : nat -> bool),
+  oracle_ok o1 -> oracle_ok o2 ->
+  run cfg_fixed o1 r1 g (pre ++ blk [TGov ok touch evs; TOpaque ok] :: post) =
+  run cfg_fixed o2 r2 g (pre ++ blk [TGov ok touch evs; TOpaque ok] :: post).
+Proof. exact opaque_execution_partial. Qed.
+Print Assumptions C01_opaque_execution_partial.
+
+(** non-vacuity: concrete histories that reach the sites, under a non-identity oracle and a restart *)
+Example C01_fixed_notify_example :
+  map r_multitx_counter (run cfg_fixed rev_oracle before1 w_genesis w_notify) =
+  [[]; []; [(0, [mk_id 0 17 1; mk_id 0 32 1])]].
+Proof. exact fixed_notify_example. Qed.
+Example C01_fixed_timeout_example :
+  map r_timeout_counter (run cfg_fixed rev_oracle before1 w_genesis w_timeout) =
+  [[]; []; []; [(0, [mk_id 0 16 1; mk_id 0 32 1])]].
+Proof. exact fixed_timeout_example. Qed.
+Example C01_fixed_cache_example :
+  map (fun r => map rc_ok (r_receipts r)) (run cfg_fixed o_id never w_genesis w_cache) = [[]; [false]; [true]].
+Proof. exact fixed_cache_example. Qed.
